@@ -159,3 +159,37 @@ Lemma ex_device_two_animations :
   map (fun ev => negb (Nat.eqb (length ev) 0)) (snd r) = [true; true; true; true] /\
   rows_of (fst r) = [0; 1].
 Proof. vm_compute. repeat split; reflexivity. Qed.
+
+(* ------------------------------------------------------------------------------------------ *)
+(* host, end to end on the object's API                                                       *)
+(* ------------------------------------------------------------------------------------------ *)
+
+Lemma nth_error_app_last {A} (l : list A) x : nth_error (l ++ [x]) (length l) = Some x.
+Proof. induction l as [|a l IH]; [reflexivity|exact IH]. Qed.
+
+(* LCD() ... animate(...) ... then any tick history, on an object that may already carry other
+   animations: the new animation is an [hsteps] run from its start state, it never ends when looping,
+   ends after exactly hsteps_total steps otherwise, and its steps are speed_ms apart *)
+Lemma host_object_animation_run l sty row text speed lp l1 ev0 nows l2 evs :
+  hreach l -> hanimate l sty row text speed lp = Some (l1, ev0) -> hticks l1 nows = Some (l2, evs) ->
+  exists stn tr,
+    nth_error (l_anims l2) (length (l_anims l)) = Some stn /\
+    hsteps (l_cols l) (l_rows l) (hstart sty row text speed lp) nows stn tr /\
+    (lp = true -> h_active stn = true) /\
+    (lp = false -> step_count tr <= hsteps_total sty (l_cols l) text /\
+                   (h_active stn = true <-> step_count tr < hsteps_total sty (l_cols l) text) /\
+                   hsteps_total sty (l_cols l) text <= zlen text + 2 * l_cols l + 2) /\
+    (tick_times_ok nows -> rate_limited (Z.max 0 speed) (step_times tr)).
+Proof.
+  intros Hr Ha Ht. pose proof (hreach_wf l Hr) as Hw.
+  destruct (hanimate_ok l sty row text speed lp l1 ev0 Hw Ha) as (Hw1 & Hc & Hrw & _ & Han & _).
+  destruct (hticks_animation l1 nows l2 evs Hw1 Ht (length (l_anims l)) (hstart sty row text speed lp))
+    as (stn & tr & Hs & Hn).
+  { rewrite Han. apply nth_error_app_last. }
+  rewrite Hc, Hrw in Hs. exists stn, tr. split; [exact Hn|]. split; [exact Hs|].
+  assert (Hcols : 1 <= l_cols l) by (destruct Hw as [H _]; exact H).
+  split; [|split].
+  - intros ->. eapply loops_forever_host; exact Hs.
+  - intros ->. eapply terminates_host; [exact Hcols|exact Hs].
+  - intro Hok. eapply rate_limit_host; [exact Hok|exact Hs].
+Qed.
